@@ -7,7 +7,7 @@
     only at the root. *)
 From Coq Require Import List Arith NArith Bool.
 From RG Require Import Model.Recipe Model.Table Model.Layout Spec.LayoutSpec
-  Proofs.LayoutTiling Proofs.LayoutArith.
+  Proofs.LayoutTiling Proofs.LayoutArith Proofs.LayoutSpecFacts Proofs.LayoutRefine Proofs.LayoutProps Proofs.LayoutGeometry Proofs.LayoutReadback.
 Import ListNotations.
 Local Open Scope N_scope.
 
@@ -24,20 +24,148 @@ Theorem C02_tiling : forall t : ltree,
                    /\ e_row e + e_rows e <= t_rows tb /\ e_col e + e_cols e <= t_cols tb)
              /\ (forall r c, r < t_rows tb -> c < t_cols tb ->
                    count_cover (t_cells tb) r c = 1%nat).
-Proof.
-  intros t Hwf. destruct (layout_ok t true [] Hwf) as [E (HR & HC & Hb & Hc)].
-  exists (alayout true [] t). repeat split; try assumption; apply Hb; assumption.
-Qed.
+Proof. exact tiling_unfolded. Qed.
 Print Assumptions C02_tiling.
 
 (** The same for recipe nodes (Model/Recipe.v) through their skeleton. *)
 Theorem C02_tiling_node : forall n : node,
   wf (ltree_of_node n) = true ->
   exists tb, recipe_tree_to_table (ltree_of_node n) = Ok tb /\ TilingT tb.
-Proof.
-  intros n Hwf. destruct (layout_ok _ true [] Hwf) as [E T]. eauto.
-Qed.
+Proof. exact tiling_node. Qed.
 Print Assumptions C02_tiling_node.
+
+(** (2) The table built by the code is the specified table (Spec/LayoutSpec.v): explicit
+    coordinates [place], the border outline rule [spec_cell (bordered_regions t)] -
+    dimensions equal, cell lists equal *in order* (stronger than "up to permutation"). *)
+Theorem C02_layout_refines_spec : forall t : ltree,
+  wf t = true -> recipe_tree_to_table t = Ok (spec_table t).
+Proof. exact layout_refines_spec. Qed.
+Print Assumptions C02_layout_refines_spec.
+
+(** (3) The labels of the cells are exactly the drawn nodes of the tree, each once: every
+    ingredient, reference and step, every titled single-output sub recipe (header) and the
+    multi-output list, by path; untitled single-output sub recipes draw no cell. *)
+Theorem C02_exactly_once : forall t tb,
+  wf t = true -> recipe_tree_to_table t = Ok tb -> labels tb = drawn [] t.
+Proof. exact exactly_once. Qed.
+Print Assumptions C02_exactly_once.
+
+(** ... and the drawn nodes are pairwise distinct labels, so equality of the label lists
+    says: every drawn node has exactly one cell and there is no other cell. *)
+Theorem C02_drawn_nodup : forall t p, NoDup (drawn p t).
+Proof. exact drawn_nodup. Qed.
+Print Assumptions C02_drawn_nodup.
+
+(** (4) Geometry.  [place [] t 0 0 (width t)] is the list (label, (row, column, rows,
+    columns)) of the code's cells (first theorem); [node_rect t 0 0 (width t) pi] is the
+    rectangle in which the subtree at path [pi] is drawn.  [tiles rho gs]: the rectangles
+    [gs] cover every slot of [rho] exactly once and stay inside it. *)
+Theorem C02_geometry_table : forall t tb,
+  wf t = true -> recipe_tree_to_table t = Ok tb ->
+  map (fun e => (c_label (e_cell e), e_rect e)) (t_cells tb) = place [] t 0 0 (width t).
+Proof. exact table_geometry. Qed.
+Print Assumptions C02_geometry_table.
+
+(** Every step: its cell spans exactly the rows of its rectangle = the rows of its inputs
+    ([h] = sum of their heights) and starts in the column immediately right of the padded
+    input region ([win] = widest input), reaching the right end of its rectangle; the
+    inputs are stacked from the top in written order, each in a rectangle [win] wide that
+    its own cells tile. *)
+Theorem C02_geometry_step : forall t, wf t = true ->
+  forall pi ins r c h w,
+  node_rect t 0 0 (width t) pi = Some (LStep ins, (r, c, h, w)) ->
+  let win := list_max (map width ins) in
+  In ((KStep, pi), (r, c + win, h, w - win)) (place [] t 0 0 (width t))
+  /\ h = list_sum (map height ins) /\ win < w
+  /\ forall i x, nth_error ins i = Some x ->
+       node_rect t 0 0 (width t) (pi ++ [i])
+       = Some (x, (r + list_sum (map height (firstn i ins)), c, height x, win))
+       /\ tiles (r + list_sum (map height (firstn i ins)), c, height x, win)
+                (map snd (place (pi ++ [i]) x (r + list_sum (map height (firstn i ins))) c win))
+       /\ incl (place (pi ++ [i]) x (r + list_sum (map height (firstn i ins))) c win)
+               (place [] t 0 0 (width t)).
+Proof. exact geometry_step. Qed.
+Print Assumptions C02_geometry_step.
+
+(** A sub recipe title spans the full width directly above its body. *)
+Theorem C02_geometry_header : forall t, wf t = true ->
+  forall pi body n r c h w,
+  node_rect t 0 0 (width t) pi = Some (LSub body n true, (r, c, h, w)) -> Nat.eqb n 1 = true ->
+  In ((KHeader, pi), (r, c, 1, w)) (place [] t 0 0 (width t))
+  /\ node_rect t 0 0 (width t) (pi ++ [0%nat]) = Some (body, (r + 1, c, height body, w))
+  /\ h = 1 + height body.
+Proof. exact geometry_header. Qed.
+Print Assumptions C02_geometry_header.
+
+Theorem C02_geometry_untitled : forall t, wf t = true ->
+  forall pi body n r c h w,
+  node_rect t 0 0 (width t) pi = Some (LSub body n false, (r, c, h, w)) -> Nat.eqb n 1 = true ->
+  node_rect t 0 0 (width t) (pi ++ [0%nat]) = Some (body, (r, c, height body, w)) /\ h = height body.
+Proof. exact geometry_untitled. Qed.
+Print Assumptions C02_geometry_untitled.
+
+Theorem C02_geometry_leaf : forall t, wf t = true ->
+  forall pi ref r c h w,
+  node_rect t 0 0 (width t) pi = Some (LLeaf ref, (r, c, h, w)) ->
+  In ((leaf_kind ref, pi), (r, c, 1, w)) (place [] t 0 0 (width t)) /\ h = 1.
+Proof. exact geometry_leaf. Qed.
+Print Assumptions C02_geometry_leaf.
+
+(** (5) Borders.  With [regs] = the rectangle of the root (of its body for a multi-output
+    root) and of every nested single-output sub recipe: an edge of a cell is [BSub] iff
+    the cell lies inside some such rectangle with that edge on the rectangle's boundary;
+    every other edge is plain, except top/right/bottom of the outputs cell, which are [BNone]. *)
+Theorem C02_borders : forall t tb e,
+  wf t = true -> recipe_tree_to_table t = Ok tb -> In e (t_cells tb) ->
+  let x := e_cell e in
+  let regs := bordered_regions t in
+  let out := is_outputs (c_label x) in
+  (c_bl x = BSub <-> exists rho, In rho regs /\ on_left (e_rect e) rho = true)
+  /\ (c_br x = BSub <-> exists rho, In rho regs /\ on_right (e_rect e) rho = true)
+  /\ (c_bt x = BSub <-> exists rho, In rho regs /\ on_top (e_rect e) rho = true)
+  /\ (c_bb x = BSub <-> exists rho, In rho regs /\ on_bottom (e_rect e) rho = true)
+  /\ (c_bl x = BSub \/ c_bl x = BNormal)
+  /\ (c_br x = BSub \/ c_br x = if out then BNone else BNormal)
+  /\ (c_bt x = BSub \/ c_bt x = if out then BNone else BNormal)
+  /\ (c_bb x = BSub \/ c_bb x = if out then BNone else BNormal).
+Proof. exact borders_rule. Qed.
+Print Assumptions C02_borders.
+
+Theorem C02_none_only_outputs : forall t tb e,
+  wf t = true -> recipe_tree_to_table t = Ok tb -> In e (t_cells tb) ->
+  let x := e_cell e in
+  c_bl x <> BNone
+  /\ ((c_br x = BNone \/ c_bt x = BNone \/ c_bb x = BNone) -> fst (c_label x) = KOutputs).
+Proof. exact none_only_outputs. Qed.
+Print Assumptions C02_none_only_outputs.
+
+(** The multi-output list cell lies right of the body, full height, one column wide, and is
+    open (borderless) on its three outer sides. *)
+Theorem C02_outputs_cell : forall body n show tb,
+  wf (LSub body n show) = true -> Nat.eqb n 1 = false ->
+  recipe_tree_to_table (LSub body n show) = Ok tb ->
+  In (0, width body, mkCell (KOutputs, []) (height body) 1 BNormal BNone BNone BNone) (t_cells tb)
+  /\ t_cols tb = width body + 1 /\ t_rows tb = height body.
+Proof. exact outputs_cell. Qed.
+Print Assumptions C02_outputs_cell.
+
+(** (6) The tree can be read back from the grid alone.  [decode_table] (Spec/LayoutSpec.v)
+    uses only the cells' positions, extents, kinds and borders - [erase] removes the paths
+    from the labels first - and returns the tree in canonical form: [canon] removes the
+    untitled single-output sub recipes that leave no trace in the drawing (at the root,
+    directly under a multi-output root, directly around another single-output sub recipe:
+    there the outline is drawn anyway) and normalises what a multi-output list cell does
+    not show as geometry (number of names, the ignored show flag). *)
+Theorem C02_readback : forall t tb,
+  wf t = true -> recipe_tree_to_table t = Ok tb ->
+  decode_table (S (tree_size t)) (erase tb) = Some (canon CFree t).
+Proof. exact readback_table. Qed.
+Print Assumptions C02_readback.
+
+(** [canon] is the identity on trees all of whose sub recipes are titled: nothing is lost. *)
+Theorem C02_canon_all_titled : forall t cx, all_titled t = true -> canon cx t = t.
+Proof. exact canon_all_titled. Qed.
+Print Assumptions C02_canon_all_titled.
 
 (** Non-vacuity: a ragged tree with a titled sub recipe inside a wider sibling, nested
     (titled in untitled) sub recipes, references, under a multi-output root. *)
@@ -56,3 +184,28 @@ Example C02_example_table :
              /\ t_rows tb = 8 /\ t_cols tb = 5 /\ length (t_cells tb) = 13%nat.
 Proof. eexists. split; [vm_compute; reflexivity|]. vm_compute. repeat split; reflexivity. Qed.
 Print Assumptions C02_example_table.
+
+(** ... and the specification gives this table: borders of the padded titled sub recipe
+    (path [0;1]) inside its wider sibling, and the outputs cell. *)
+Example C02_example_spec :
+  recipe_tree_to_table C02_example_tree = Ok (spec_table C02_example_tree)
+  /\ In (1, 0, mkCell (KHeader, [0; 1]%nat) 1 3 BSub BSub BSub BNormal)
+        (t_cells (spec_table C02_example_tree))
+  /\ In (0, 4, mkCell (KOutputs, []) 8 1 BNormal BNone BNone BNone)
+        (t_cells (spec_table C02_example_tree)).
+Proof. split; [vm_compute; reflexivity|]. vm_compute. split; auto 20. Qed.
+Print Assumptions C02_example_spec.
+
+(** Non-vacuity of the geometry statements: the step at path [0;2;0] of the example. *)
+Example C02_example_geometry :
+  node_rect C02_example_tree 0 0 (width C02_example_tree) [0; 2; 0]%nat
+  = Some (LStep [LSub (LSub (LLeaf false) 1 false) 1 true; LLeaf false], (4, 0, 3, 2)).
+Proof. vm_compute. reflexivity. Qed.
+Print Assumptions C02_example_geometry.
+
+Example C02_example_readback :
+  decode_table (S (tree_size C02_example_tree)) (erase (spec_table C02_example_tree))
+  = Some (canon CFree C02_example_tree)
+  /\ canon CFree C02_example_tree = C02_example_tree.
+Proof. vm_compute. split; reflexivity. Qed.
+Print Assumptions C02_example_readback.
